@@ -26,6 +26,12 @@ PROPS = {
     "C08": dict(level="exploration", stages=[dict(kind="sim", quick=25, thorough=600)],
                 rule="one evaluation = one seeded history through Client -> in-process transport -> real handlers, with request corruption and identity faults on a drawn subset of requests, each classified ill-formed / well-formed / unspecified independently of the server; distinct = distinct canonical event-log hash; non-trivial = executed at least one call",
                 assumptions=["no sockets: requests are delivered by calling mux.ServeHTTP"]),
+    "C10": dict(level="exploration", stages=[dict(kind="sim", quick=20, thorough=600)],
+                rule="one evaluation = one construction scenario: declared names (with duplicates, optionally from a tagged struct), a drawn cache kind (none/empty/complete/partial/stale/garbage/read error), a per-(name,attempt) script of failures, hangs and latencies, an optional deadline, stub or file-backed client, or a misconfiguration; virtual time; distinct = distinct canonical event-log hash; non-trivial = at least one request or a return",
+                assumptions=["the scripted service honours the caller's context", "'a few seconds' of back-off is judged as <= 10 s of virtual time"]),
+    "C16": dict(level="exploration", stages=[dict(kind="sim", quick=20, thorough=600)],
+                rule="one evaluation = one lookup scenario: both settings of AllowLookup, 1-4 callers entering through LookupSecret / NewUpdater / Fields.Apply / Secret on colliding names, each with no deadline, a deadline or a scripted cancellation, against a service that answers, fails, is slow (up to minutes) or hangs forever; virtual time up to 45 min; distinct = distinct canonical event-log hash; non-trivial = at least one caller ran",
+                assumptions=["the scripted service honours request contexts"]),
     "C14": dict(level="exploration", stages=[
                     dict(kind="sim", name="baton", engine="dbworld-conc", quick=20, thorough=600),
                     dict(kind="sim", name="race", engine="dbworld-conc-free", race=True, instrumented=False, quick=12, thorough=240,
